@@ -218,14 +218,15 @@ _TRANS = {
     "C13": (["Gws.Props.TransFrame", "Gws.Props.TransReader", "Gws.Props.TransParse", "Gws.Props.TransFragment", "Gws.Props.TransControl", "Gws.Props.TransEmit", "Gws.Props.TransNego", "Gws.Props.TransLimited"],
             _TF + _TR + _TP + _TL + ["TransEquiv.limitedReader_Read_eq", "TransEquiv.copy_step_eq"]),
     "C15": (["Gws.Props.TransQueue"], ["TransEquiv.getJob_eq"]),
-    "C05": (["Gws.Props.TransFrame", "Gws.Props.TransClose", "Gws.Props.TransWriter"],
-            ["TransEquiv.SetLength_eq", "TransEquiv.GenerateHeader_eq", "TransEquiv.local_close_body_eq", "TransEquiv.genFrame_eq"]),
+    "C05": (["Gws.Props.TransFrame", "Gws.Props.TransClose", "Gws.Props.TransWriter", "Gws.Props.TransCompress"],
+            ["TransEquiv.SetLength_eq", "TransEquiv.GenerateHeader_eq", "TransEquiv.local_close_body_eq", "TransEquiv.genFrame_eq", "TransEquiv.stripTail_eq", "TransEquiv.compressData_eq"]),
     "C06": (["Gws.Props.TransClose"], _TC),
     "C16": (["Gws.Props.TransClose", "Gws.Props.TransEmit"], ["TransEquiv.CheckEncoding_eq", "TransEquiv.emitClose_body_eq", "TransEquiv.emitMessage_eq"]),
     "C12": (["Gws.Props.TransNego"], _TN),
     "C01": (["Gws.Props.TransNego"], ["TransEquiv.setThreshold_eq"]),
     "C17": (["Gws.Props.TransWindow"], ["TransEquiv.slideWindow_Write_eq", "TransEquiv.BinaryPow_eq"]),
-    "C02": (["Gws.Props.TransWindow", "Gws.Props.TransNego", "Gws.Props.TransEmit"], ["TransEquiv.slideWindow_Write_eq", "TransEquiv.BinaryPow_eq", "TransEquiv.setThreshold_eq", "TransEquiv.emitMessage_eq"]),
+    "C02": (["Gws.Props.TransWindow", "Gws.Props.TransNego", "Gws.Props.TransEmit", "Gws.Props.TransCompress"],
+            ["TransEquiv.slideWindow_Write_eq", "TransEquiv.BinaryPow_eq", "TransEquiv.setThreshold_eq", "TransEquiv.emitMessage_eq", "TransEquiv.stripTail_eq", "TransEquiv.compressData_eq"]),
 }
 for _p, (_mods, _ths) in _TRANS.items():
     PROPS[_p]["trans_modules"] = _mods
